@@ -1,5 +1,6 @@
-(* C18: the history theorem instantiated for array dimensions (Model/Shim.v), the refutations
-   of its hypotheses, and the response part (CubeSet inflation, JSON text / dict / envelope). *)
+(* C18: the history theorem instantiated for array dimensions (Model/Shim.v) and the response part
+   (CubeSet inflation, JSON text / dict / envelope).  Since the repairs 51c19c01 (transforms) and
+   3e9f35f8 (inflate) neither theorem has a hypothesis. *)
 From Coq Require Import ZArith List Bool Lia Arith String.
 From CC Require Import Base.Ident Model.Shim Model.History Proofs.ShimSpec Proofs.ShimTranslate
   Proofs.ShimSlots Proofs.HistoryProofs.
@@ -11,93 +12,79 @@ Proof.
   destruct a, b; simpl; intros H; try discriminate; reflexivity.
 Qed.
 
-Definition aop_ok (used : nat -> Prop) (dimof : nat -> adim) (x : op adim aprop) : Prop :=
-  match x with
-  | New d i => used i /\ d = dimof i
-  | Read _ _ => True
-  end.
-
-(* after the repair of translate_element_id(None) the former hypothesis H1 (the shim does not raise
-   on the pristine dict and leaves no None in a list slot) is a THEOREM (shim_xf_total,
-   shim_xf_fixed): what remains is a condition on the dimensions alone *)
-Theorem array_reads_pure (ts : nat -> xf) (used : nat -> Prop) (dimof : nat -> adim) ops :
-  (forall i, used i -> ~ In key_str (aliases (dimof i))) ->
-  (forall i, used i -> ids_not_none (dimof i)) ->
-  (* H2: dict i is only ever used with the dimension dimof i *)
-  Forall (aop_ok used dimof) ops ->
-  arun ts ops = arun_pristine ts ops.
+(* every read of EVERY history over shared transforms dicts - any dicts, any dimensions, one dict
+   used with any number of different dimensions, raising translations included - equals the read on
+   pristine copies *)
+Theorem array_reads_pure (ts : nat -> xf) ops : arun ts ops = arun_pristine ts ops.
 Proof.
-  intros HK HN H2. unfold arun, arun_pristine.
-  apply (reads_pure adim xf aprop aval shim_xf acons aprop_eqb (fun _ => true) aprop_eqb_sound
-           ts used dimof).
-  - intros i U. apply shim_xf_total. exact (proj1 (HN i U)).
-  - intros i U. apply shim_xf_fixed; [apply HK; exact U | apply HN; exact U].
-  - exact H2.
+  unfold arun, arun_pristine.
+  apply (reads_pure adim xf aprop aval shim_xf acons aprop_eqb (fun _ => true) aprop_eqb_sound ts).
+Qed.
+
+(* ... and the caller's dicts are the pristine ones afterwards *)
+Theorem array_dicts_unchanged (ts : nat -> xf) ops i : arun_dict ts ops i = ts i.
+Proof.
+  unfold arun_dict, afinal.
+  rewrite (dicts_unchanged adim xf aprop aval shim_xf acons aprop_eqb (fun _ => true) ts ops).
+  reflexivity.
+Qed.
+
+(* a raising translation leaves the caller's dict as the function's first component: there is no
+   half-rewritten dict any more *)
+Lemma shim_xf_raise_untouched d t ex : snd (shim_xf d t) = Some ex -> fst (shim_xf d t) = t.
+Proof.
+  unfold shim_xf.
+  destruct (opt_res (replaced_elements d) (x_elements t)); [|reflexivity].
+  destruct (opt_res (replaced_ids d) (x_ids t)); [|reflexivity].
+  destruct (opt_res (replaced_ids d) (x_top t)); [|reflexivity].
+  destruct (opt_res (replaced_ids d) (x_bottom t)); [|reflexivity].
+  simpl. discriminate.
 Qed.
 
 (* ---- responses ---------------------------------------------------------------------------- *)
-Lemma inflate_all_mono l : forall r j, r j <= inflate_all r l j.
-Proof.
-  unfold inflate_all. induction l as [|a t IH]; intros r j; simpl; [lia|].
-  apply Nat.le_trans with ((fun j0 => if Nat.eqb j0 a then S (r j0) else r j0) j);
-    [cbv beta; destruct (Nat.eqb j a); lia
-    | exact (IH (fun j0 => if Nat.eqb j0 a then S (r j0) else r j0) j)].
-Qed.
+Definition pristine_out (r0 : nat -> nat) (x : rop) : list pkind :=
+  match snd (rstep (r0, []) x) with [k] => k | _ => [] end.
 
-Lemma inflate_all_in l : forall r i, In i l -> S (r i) <= inflate_all r l i.
-Proof.
-  unfold inflate_all. induction l as [|a t IH]; intros r i Hin; simpl; [contradiction|].
-  destruct Hin as [E|Hin]; [subst i|].
-  - apply Nat.le_trans with ((fun j0 => if Nat.eqb j0 a then S (r j0) else r j0) a);
-      [cbv beta; rewrite Nat.eqb_refl; lia
-      | exact (inflate_all_mono t (fun j0 => if Nat.eqb j0 a then S (r j0) else r j0) a)].
-  - apply Nat.le_trans with (S ((fun j0 => if Nat.eqb j0 a then S (r j0) else r j0) i));
-      [cbv beta; destruct (Nat.eqb i a); lia
-      | exact (IH (fun j0 => if Nat.eqb j0 a then S (r j0) else r j0) i Hin)].
-Qed.
-
-(* re-using the responses of a CubeSet for the SAME CubeSet is safe *)
-Theorem inflate_stable r0 l :
-  rrun r0 [MkSet l; MkSet l] = rrun_pristine r0 [MkSet l; MkSet l].
-Proof.
-  unfold rrun, rrun_pristine. simpl.
-  destruct (is_numeric_set r0 l) eqn:E.
-  - assert (E2 : is_numeric_set (inflate_all r0 l) l = false).
-    { destruct l as [|i [|j t]]; try discriminate. unfold is_numeric_set.
-      apply Nat.eqb_neq. pose proof (inflate_all_in (i :: j :: t) r0 i (or_introl eq_refl)). lia. }
-    rewrite E2. reflexivity.
-  - rewrite E. reflexivity.
-Qed.
-
-Definition rop_ok (r0 : nat -> nat) (x : rop) : Prop :=
-  match x with
-  | MkCube _ => True
-  | MkSet l => is_numeric_set r0 l = false
-  end.
+Lemma rstep_spec r out x : rstep (r, out) x = (r, out ++ [pristine_out r x]).
+Proof. destruct x as [i|l]; reflexivity. Qed.
 
 Lemma rrun_fold r0 ops : forall out,
-  Forall (rop_ok r0) ops ->
-  fold_left rstep ops (r0, out) =
-  (r0, out ++ map (fun x => match snd (rstep (r0, []) x) with [k] => k | _ => [] end) ops).
+  fold_left rstep ops (r0, out) = (r0, out ++ map (pristine_out r0) ops).
 Proof.
-  induction ops as [|x ops IH]; intros out HF; simpl; [rewrite app_nil_r; reflexivity|].
-  inversion HF as [|? ? Hx HF']; subst. destruct x as [i|l]; simpl.
-  - rewrite IH by exact HF'. rewrite <- app_assoc. reflexivity.
-  - simpl in Hx. rewrite Hx. rewrite IH by exact HF'. rewrite <- app_assoc. reflexivity.
+  induction ops as [|x ops IH]; intros out; simpl; [rewrite app_nil_r; reflexivity|].
+  change (fold_left rstep ops (rstep (r0, out) x) = (r0, out ++ pristine_out r0 x :: map (pristine_out r0) ops)).
+  rewrite rstep_spec, IH, <- app_assoc. reflexivity.
 Qed.
 
-(* H3: no numeric-measure CubeSet (>= 2 responses, the first one 0-D) in the history *)
-Theorem response_reads_pure r0 ops :
-  Forall (rop_ok r0) ops -> rrun r0 ops = rrun_pristine r0 ops.
-Proof.
-  intros HF. unfold rrun, rrun_pristine. rewrite (rrun_fold r0 ops [] HF). reflexivity.
-Qed.
+(* THE CubeSet history theorem: EVERY list of MkCube / MkSet operations over shared responses -
+   numeric-measure sets included, any number of times, sharing responses with anything *)
+Theorem response_reads_pure r0 ops : rrun r0 ops = rrun_pristine r0 ops.
+Proof. unfold rrun, rrun_pristine. rewrite (rrun_fold r0 ops []). reflexivity. Qed.
+
+(* ... and the caller's responses have the number of dimension dicts they came with *)
+Theorem rrun_state_unchanged r0 ops : rrun_state r0 ops = r0.
+Proof. unfold rrun_state. rewrite (rrun_fold r0 ops []). reflexivity. Qed.
+
+(* re-using the responses of a CubeSet for the SAME CubeSet (the one history the former design made
+   safe: the second inflation was skipped because the response was no longer 0-D) *)
+Theorem inflate_stable r0 l :
+  rrun r0 [MkSet l; MkSet l] = rrun_pristine r0 [MkSet l; MkSet l].
+Proof. apply response_reads_pure. Qed.
 
 Theorem envelope_agree {R} (r : R) :
   cube_response (ArgDict (JResp r)) = JResp r /\
   cube_response (ArgText (JResp r)) = JResp r /\
   cube_response (ArgDict (JEnvelope (JResp r))) = JResp r /\
   cube_response (ArgText (JEnvelope (JResp r))) = JResp r.
+Proof. repeat split. Qed.
+
+(* the summary response a CubeSet augments its filter cubes against is the same however the first
+   response was supplied (repair 537d2a70) *)
+Theorem summary_forms_agree {R} (r : R) (rest : list (rarg R)) :
+  set_summary (ArgDict (JResp r) :: rest) = Some (JResp r) /\
+  set_summary (ArgText (JResp r) :: rest) = Some (JResp r) /\
+  set_summary (ArgDict (JEnvelope (JResp r)) :: rest) = Some (JResp r) /\
+  set_summary (ArgText (JEnvelope (JResp r)) :: rest) = Some (JResp r).
 Proof. repeat split. Qed.
 
 (* ---- the response's dimension dict -------------------------------------------------------- *)
